@@ -25,8 +25,11 @@ func c14Expect(p *spec.C14Case) (class, detail string) {
 	protoOK := contains(allowed, p.Proto)
 	tls := func() string {
 		switch p.ServerTLS + "/" + p.ClientTLS {
-		case "none/none", "none/auto", "static/static":
+		case "none/none", "none/auto", "static/static", "ignorecert/none":
 			return "MUST_WORK"
+		case "ignorecert/auto":
+			// the host asked for mutual TLS and the plugin serves plain text: working would be a silent downgrade
+			return "MUST_NOT_WORK"
 		case "static/auto":
 			return "EITHER_BUT_CLEAN" // AutoMTLS with a TLSProvider on the server is documented as not to be combined
 		}
@@ -73,6 +76,14 @@ func c14Gen(r *rand.Rand, tier string) []spec.Case {
 	add := func(c spec.C14Case) {
 		cl, det := c14Expect(&c)
 		out = append(out, spec.Case{Kind: cl + ":" + det, P: spec.MustJSON(c)})
+	}
+	// a plugin that ignores PLUGIN_CLIENT_CERT, against hosts with and without AutoMTLS
+	for _, proto := range []string{"netrpc", "grpc"} {
+		for _, ct := range []string{"auto", "none"} {
+			for _, la := range []string{"cmd", "runner"} {
+				add(spec.C14Case{Proto: proto, ServerTLS: "ignorecert", ClientTLS: ct, Launch: la, Allowed: []string{"netrpc", "grpc"}})
+			}
+		}
 	}
 	for _, cf := range []string{"cmd+reattach", "secure+reattach", "none-set"} {
 		add(spec.C14Case{Proto: "netrpc", ServerTLS: "none", ClientTLS: "none", Launch: "cmd", Conflict: cf})
